@@ -376,8 +376,12 @@ class EquationSolver(object):
                 # invalid data.
                 try:
                     new_value[var] = eval(eqn, globals(), initial)
-                except ZeroDivisionError as er:
+                    if isinstance(new_value[var], complex):
+                        # A fractional power of a negative number: a domain error, like log10(-1).
+                        raise ValueError('complex result')
+                except (ZeroDivisionError, OverflowError) as er:
                     # We can add new error types that we are willing to temporarily accept.
+                    # (OverflowError: float ** and exp() raise instead of returning inf.)
                     new_value[var] = initial[var]
                     had_evaluation_errors = True
                     last_error = 'Error evaluating variable {0} = {1}'.format(var, str(er))
@@ -430,9 +434,11 @@ class EquationSolver(object):
                 except NameError:
                     failed.append((var, eqn))
                     continue
-                except ZeroDivisionError as er:
+                except (ZeroDivisionError, OverflowError) as er:
                     # Same treatment as a persistent error inside the iteration: a value error.
                     raise ValueError('Error evaluating variable {0} = {1}'.format(var, str(er)))
+                if isinstance(val, complex):
+                    raise ValueError('Complex value computed for variable ' + var)
                 if val != val or abs(val) == float('inf'):
                     raise ValueError('Non-finite value computed for variable ' + var)
                 initial[var] = val
